@@ -36,6 +36,71 @@
 /* Private definitions                                                        */
 /*============================================================================*/
 
+/**
+ * Copies a scalar for processing, reducing it modulo the group order when it is
+ * longer than the order: the recodings and tables below cover the bit length
+ * of the order only.
+ *
+ * @param[out] m			- the scalar to process.
+ * @param[in] k				- the scalar given by the caller.
+ */
+static void eb_mul_sim_red(bn_t m, const bn_t k) {
+	bn_t n;
+
+	bn_null(n);
+
+	RLC_TRY {
+		bn_new(n);
+		eb_curve_get_ord(n);
+		if (bn_bits(k) > bn_bits(n)) {
+			bn_mod(m, k, n);
+		} else {
+			bn_copy(m, k);
+		}
+	}
+	RLC_CATCH_ANY {
+		RLC_THROW(ERR_CAUGHT);
+	}
+	RLC_FINALLY {
+		bn_free(n);
+	}
+}
+
+/**
+ * Multiplies and adds two points simultaneously with the given algorithm after
+ * reducing scalars that are longer than the group order.
+ *
+ * @param[out] r			- the result.
+ * @param[in] p				- the first point to multiply.
+ * @param[in] k				- the first integer.
+ * @param[in] q				- the second point to multiply.
+ * @param[in] m				- the second integer.
+ * @param[in] sim			- the simultaneous multiplication algorithm.
+ */
+static void eb_mul_sim_imp(eb_t r, const eb_t p, const bn_t k, const eb_t q,
+		const bn_t m, void (*sim)(eb_t, const eb_t, const bn_t, const eb_t,
+		const bn_t)) {
+	bn_t _k, _m;
+
+	bn_null(_k);
+	bn_null(_m);
+
+	RLC_TRY {
+		bn_new(_k);
+		bn_new(_m);
+		eb_mul_sim_red(_k, k);
+		eb_mul_sim_red(_m, m);
+		sim(r, p, _k, q, _m);
+	}
+	RLC_CATCH_ANY {
+		RLC_THROW(ERR_CAUGHT);
+	}
+	RLC_FINALLY {
+		bn_free(_k);
+		bn_free(_m);
+	}
+}
+
 #if EB_SIM == INTER || !defined(STRIP)
 
 #if defined(EB_KBLTZ)
@@ -302,8 +367,8 @@ void eb_mul_sim_basic(eb_t r, const eb_t p, const bn_t k, const eb_t q,
 
 #if EB_SIM == TRICK || !defined(STRIP)
 
-void eb_mul_sim_trick(eb_t r, const eb_t p, const bn_t k, const eb_t q,
-		const bn_t m) {
+static void eb_mul_sim_trick_imp(eb_t r, const eb_t p, const bn_t k,
+		const eb_t q, const bn_t m) {
 	eb_t t0[1 << (RLC_WIDTH / 2)], t1[1 << (RLC_WIDTH / 2)], t[1 << RLC_WIDTH];
 	size_t l0, l1, w = RLC_WIDTH / 2;
 	uint8_t w0[RLC_FB_BITS], w1[RLC_FB_BITS];
@@ -390,12 +455,17 @@ void eb_mul_sim_trick(eb_t r, const eb_t p, const bn_t k, const eb_t q,
 		}
 	}
 }
+
+void eb_mul_sim_trick(eb_t r, const eb_t p, const bn_t k, const eb_t q,
+		const bn_t m) {
+	eb_mul_sim_imp(r, p, k, q, m, eb_mul_sim_trick_imp);
+}
 #endif
 
 #if EB_SIM == INTER || !defined(STRIP)
 
-void eb_mul_sim_inter(eb_t r, const eb_t p, const bn_t k, const eb_t q,
-		const bn_t m) {
+static void eb_mul_sim_inter_imp(eb_t r, const eb_t p, const bn_t k,
+		const eb_t q, const bn_t m) {
 
 	if (bn_is_zero(k) || eb_is_infty(p)) {
 		eb_mul(r, q, m);
@@ -418,12 +488,17 @@ void eb_mul_sim_inter(eb_t r, const eb_t p, const bn_t k, const eb_t q,
 #endif
 }
 
+void eb_mul_sim_inter(eb_t r, const eb_t p, const bn_t k, const eb_t q,
+		const bn_t m) {
+	eb_mul_sim_imp(r, p, k, q, m, eb_mul_sim_inter_imp);
+}
+
 #endif
 
 #if EB_SIM == JOINT || !defined(STRIP)
 
-void eb_mul_sim_joint(eb_t r, const eb_t p, const bn_t k, const eb_t q,
-		const bn_t m) {
+static void eb_mul_sim_joint_imp(eb_t r, const eb_t p, const bn_t k,
+		const eb_t q, const bn_t m) {
 	eb_t t[5];
 	int i, u_i, offset;
 	int8_t jsf[2 * (RLC_FB_BITS + 1)];
@@ -494,12 +569,20 @@ void eb_mul_sim_joint(eb_t r, const eb_t p, const bn_t k, const eb_t q,
 	}
 }
 
+void eb_mul_sim_joint(eb_t r, const eb_t p, const bn_t k, const eb_t q,
+		const bn_t m) {
+	eb_mul_sim_imp(r, p, k, q, m, eb_mul_sim_joint_imp);
+}
+
 #endif
 
 void eb_mul_sim_gen(eb_t r, const bn_t k, const eb_t q, const bn_t m) {
 	eb_t g;
+	bn_t _k, _m;
 
 	eb_null(g);
+	bn_null(_k);
+	bn_null(_m);
 
 	if (bn_is_zero(k)) {
 		eb_mul(r, q, m);
@@ -512,13 +595,18 @@ void eb_mul_sim_gen(eb_t r, const bn_t k, const eb_t q, const bn_t m) {
 
 	RLC_TRY {
 		eb_new(g);
+		bn_new(_k);
+		bn_new(_m);
 
 		eb_curve_get_gen(g);
+		/* The table-based variants below are entered directly. */
+		eb_mul_sim_red(_k, k);
+		eb_mul_sim_red(_m, m);
 
 #if defined(EB_KBLTZ)
 #if EB_SIM == INTER && EB_FIX == LWNAF && defined(EB_PRECO)
 		if (eb_curve_is_kbltz()) {
-			eb_mul_sim_kbltz(r, g, k, q, m, eb_curve_get_tab());
+			eb_mul_sim_kbltz(r, g, _k, q, _m, eb_curve_get_tab());
 		}
 #else
 		if (eb_curve_is_kbltz()) {
@@ -530,7 +618,7 @@ void eb_mul_sim_gen(eb_t r, const bn_t k, const eb_t q, const bn_t m) {
 #if defined(EB_PLAIN)
 #if EB_SIM == INTER && EB_FIX == LWNAF && defined(EB_PRECO)
 		if (!eb_curve_is_kbltz()) {
-			eb_mul_sim_plain(r, g, k, q, m, eb_curve_get_tab());
+			eb_mul_sim_plain(r, g, _k, q, _m, eb_curve_get_tab());
 		}
 #else
 		if (!eb_curve_is_kbltz()) {
@@ -544,5 +632,7 @@ void eb_mul_sim_gen(eb_t r, const bn_t k, const eb_t q, const bn_t m) {
 	}
 	RLC_FINALLY {
 		eb_free(g);
+		bn_free(_k);
+		bn_free(_m);
 	}
 }
